@@ -27,7 +27,7 @@ def B(**kw):
 
 LEAVES = [
     B(ret=['ok']), B(ret=['continue']), B(ret=['fail']), B(ret=['skip']), B(ret=['stop']), B(ret=['fail_subtest']),
-    B(ret=['raise']), B(ret=['raise_f']), B(ret=['bad']), B(ret=['bad0']), B(ret=['hang']),
+    B(ret=['raise']), B(ret=['raise_f']), B(ret=['bad']), B(ret=['bad0']), B(ret=['hang']), B(ret=['sysexit']),
     B(ret=['ok'], meas='pass'), B(ret=['ok'], meas='fail'), B(ret=['ok'], meas='unset'), B(ret=['ok'], meas='marg'),
     B(ret=['ok'], diag=['A']), B(ret=['ok'], diag=['FA']), B(ret=['ok'], diag=['raise']), B(ret=['ok'], diag=['raise', 'FA']),
     B(ret=['repeat', 'ok']), B(ret=['repeat', 'repeat', 'repeat']), B(ret=['repeat', 'fail']),
